@@ -71,3 +71,7 @@ Fixpoint unhex (s : string) : bytes :=
   | String a (String b r) => (hexval a * 16 + hexval b) :: unhex r
   | _ => []
   end.
+(* hx "0a0b": argument parsed in string_scope, so case files need no import *)
+Definition hx (s : string) : bytes := unhex s.
+Arguments hx s%string.
+
